@@ -78,8 +78,10 @@ def bipartite_vertex_cover(bigraph, algo="Hopcroft-Karp"):
     """
     if algo == "Hopcroft-Karp":
         coord = [(irow,icol) for irow,cols in enumerate(bigraph) for icol in cols]
-        coord = np.array(coord)
-        graph = csr_matrix((np.ones(coord.shape[0]),(coord[:,0],coord[:,1])))
+        coord = np.array(coord, dtype=int).reshape(-1, 2)
+        # the true shape: isolated vertices and graphs without edges are legitimate inputs
+        nV = max((max(adjlist, default=-1) for adjlist in bigraph), default=-1) + 1
+        graph = csr_matrix((np.ones(coord.shape[0]),(coord[:,0],coord[:,1])), shape=(len(bigraph), nV))
         matchV = maximum_bipartite_matching(graph, perm_type='row')
         matchV = [None if x==-1 else x for x in matchV]
         nU, nV = graph.shape
